@@ -306,14 +306,15 @@ Theorem C12_no_panic2_after_history :
                attr_schema_location root_attrs o w <> Fuel.
 Proof. exact no_panic2_after_history_real. Qed.
 
-(* [F] TypedU cannot be dropped: after this well-formed history the compatibility walk panics *)
-Theorem C12_check_compat_panics_real :
+(* [F] regression of the fixed defect C12-panic-check-compat-mixup (element.rs read the mask from the STORED type with the index
+   list of the recalculated type): after this well-formed history the compatibility walk used to panic; it returns now *)
+Theorem C12_check_compat_mixup_fixed_real :
   wf_ops RT tab_element tab_enum nv_check 1048576 [] ex_fmt mx_hist empty_world /\
-  exists w site,
+  exists w r,
     Inv.run_ops RT tab_element tab_enum nv_check 1048576 [] mx_hist empty_world = Val w /\
     option_map n_parent (w_nodes w 10) = Some (PElem 18) /\
-    f_check RT w 0 1 = Pan site.
-Proof. exact (conj mx_wf mx_panics). Qed.
+    f_check RT w 0 1 = Val r.
+Proof. exact (conj mx_wf mx_fixed). Qed.
 
 Theorem C12_check_compat_total :
   forall (T : tables) (tab_el tab_at tab_en : nametab),
